@@ -1322,6 +1322,9 @@ func runC14(a vh.Args, o *vh.Oracle, r *vh.Result) error {
 	if err := c14CLIPut(a, o, r, rng.Fork()); err != nil {
 		return err
 	}
+	if err := c14UpFail(a, o, r, rng.Fork()); err != nil {
+		return err
+	}
 	if err := c14SizeFamily(a, o, r, rng.Fork()); err != nil {
 		return err
 	}
@@ -1341,6 +1344,8 @@ func c14Replay(a vh.Args, o *vh.Oracle, r *vh.Result, c *c14Case) error {
 		return c14SSHPool(a, o, r, rng)
 	case "cliput":
 		return c14CLIPut(a, o, r, rng)
+	case "upfail":
+		return c14UpFail(a, o, r, rng)
 	case "sizes":
 		return c14SizeFamily(a, o, r, rng)
 	case "script":
